@@ -1,5 +1,6 @@
 import OrsoVerif.Model.PyVal
 import OrsoVerif.Model.Iso
+import OrsoVerif.Model.IsoCast
 /-! Driver glue for C08: decode an input, run `parseIso` / the casts / the renderers, encode. -/
 namespace Drv.C08
 open Iso
@@ -24,6 +25,7 @@ def decodeInput : PyVal → Option Input
   | .list [.str "datetime", .list fs] => do pure (.datetime (← decodeDt fs))
   | .list [.str "time", H, M, S, us] => do pure (.time (← nat? H) (← nat? M) (← nat? S) (← nat? us))
   | .list [.str "other"] => some .other
+  | .list [.str "strsub", .str s] => some (.strSub s.toList)
   | _ => none
 
 def encodeDt (dt : DateTime) : PyVal :=
@@ -74,7 +76,8 @@ def handle (op : String) (args : List PyVal) : Option (List PyVal) :=
   | "cast", [.str k, i] => do
     let k ← decodeKind k
     let i ← decodeInput i
-    pure [encodeCast (cast k i)]
+    -- the programs translated from the source on this run, and the specification form the theorems are about
+    pure [match castRun k i with | some o => encodeCast o | none => .list [.str "weird"], encodeCast (cast k i)]
   | "render", [.str form, .list fs, .str sep, k, suf] => do
     let dt ← decodeDt fs
     let sep ← sepChar? sep
@@ -85,6 +88,10 @@ def handle (op : String) (args : List PyVal) : Option (List PyVal) :=
     | "min" => pure [.str (String.ofList (renderMinute dt sep ++ suf.text))]
     | "date" => pure [.str (String.ofList (renderDate dt.year dt.month dt.day ++ suf.text))]
     | _ => none
+  | "timeiso", [.str t] =>
+    match timeFromIso t.toList with
+    | .ok x => pure [.list [.str "time", .int x.hour, .int x.minute, .int x.second, .int x.micro]]
+    | .error e => pure [.list [.str "raises", .str e.name]]
   | "valid", [.list fs] => do
     let dt ← decodeDt fs
     pure [.bool (validDateTime dt)]
